@@ -1,6 +1,7 @@
 """C07 - integer parameters convert to the exactly rounded value or a range error."""
 from fractions import Fraction as F
 from .. import facts, fdai, scpi_models as M, sym, ieee, cfg
+from . import contrib as CB_
 from ..fdai import EnumV, AggV, K, SymV, RefV, Cell, Loc, TOP, load
 from . import dispatch as D, convert as C
 from .c08 import keyword_paths, ok_value, C_bytes
@@ -501,7 +502,7 @@ def run(R, tier, only=None, project=None):
         good = bool(res)
         for r in res:
             tf = [e for e in r.trace if e.kind == "call" and e.name.endswith("TryFrom::try_from")]
-            if len(tf) != 1 or "tok-NonDecimalNumericProgramData-0" not in repr(tf[0].args[0]) or ((tf[0].extra or {}).get("gargs") or ("", ""))[:2] != (ity, "u64"):
+            if len(tf) != 1 or not CB_.holds(tf[0].args[0], "tok-NonDecimalNumericProgramData-0") or ((tf[0].extra or {}).get("gargs") or ("", ""))[:2] != (ity, "u64"):
                 good = False
             oc = M.outcome(r)
             if oc not in ("Ok", "Err(DataOutOfRange)"):
